@@ -72,6 +72,7 @@ GenCmd(st, sd, t) ==
             THEN [k |-> "e", path |-> st.tab[3 + Pick(sd, t, 4, Len(st.tab) - 2)].path, force |-> f(6), ew |-> TRUE]
        ELSE IF k < 18 THEN [k |-> "e", path |-> PathOf(sd, t, 2), force |-> f(5), ew |-> Pick(sd, t, 5, 6) = 0]
        ELSE IF k < 23 THEN [k |-> "e", path |-> "", force |-> f(3)]
+       ELSE IF k < 25 /\ st.args # <<>> THEN [k |-> "n", dis |-> IF Pick(sd, t, 2, 3) = 0 THEN -1 ELSE 1]
        ELSE IF k < 26 THEN [k |-> "top"]
        ELSE IF k < 35 THEN [k |-> "a", n |-> 1 + Pick(sd, t, 2, 2)]
        ELSE IF k < 40 THEN [k |-> "d"]
@@ -126,6 +127,7 @@ Typed(st, c) ==
                          [] c.how = "alias" -> <<(<<37, 35, 94>>)[c.n]>> [] c.how = "del" -> <<33>> [] OTHER -> <<126>>) \o <<10>>
       [] c.k = "a" -> <<97, 10>> \o Toks(st.nid, c.n) \o <<46, 10>>
       [] c.k = "top" -> <<49, 10>>
+      [] c.k = "n" -> IF c.dis > 0 THEN <<110, 10>> ELSE <<112, 114, 101, 118, 10>>
       [] c.k = "d" -> <<100, 10>>
       [] c.k = "u" -> <<117, 10>>
       [] c.k = "redo" -> <<114, 101, 100, 111, 10>>
@@ -196,6 +198,8 @@ CorpusScripts == <<
     (* piping an unnamed modified buffer to a command neither names nor saves it: :q is refused *)
     << [k |-> "a", n |-> 2], [k |-> "wp"], [k |-> "q", force |-> FALSE, fault |-> ""], [k |-> "e", path |-> "f1", force |-> FALSE],
        [k |-> "a", n |-> 1], [k |-> "wp"], [k |-> "q", force |-> FALSE, fault |-> ""] >> >>
+(* one script in three starts the editor with three file arguments *)
+ArgsOf(sd) == IF sd % 3 = 2 THEN <<AllPaths[1], AllPaths[2], AllPaths[3]>> ELSE <<>>
 Seed0 == EnvN("SEED0", 1)
 NScripts == EnvN("NSCRIPTS", 4)
 NSteps == EnvN("NSTEPS", 30)
@@ -203,8 +207,8 @@ Table == IF Env("MODE", "") = "faults" THEN FaultTable
          ELSE IF Env("MODE", "") = "corpus"
          THEN [i \in 1..Len(CorpusScripts) |-> [seed |-> 0 - i, steps |-> RunFixed(NewState(PathSet, 16), CorpusScripts[i], 1)]]
          ELSE
-         [k \in 1..NScripts |-> [seed |-> Seed0 + k - 1,
-                                 steps |-> Script(NewState(PathSet, 16), Seed0 + k - 1, 1, NSteps)]]
+         [k \in 1..NScripts |-> [seed |-> Seed0 + k - 1, args |-> ArgsOf(Seed0 + k - 1),
+                                 steps |-> Script(WithArgs(NewState(PathSet, 16), ArgsOf(Seed0 + k - 1)), Seed0 + k - 1, 1, NSteps)]]
 Init == dummy = 0 /\ ndJsonSerialize(Env("OUT", "/tmp/gen_bufs.ndjson"), Table)
 Next == UNCHANGED dummy
 Spec == Init /\ [][Next]_dummy
